@@ -50,6 +50,10 @@ type mext struct {
 	types map[string]reflect.Type
 	form  int // Go representation of the real lookup (extForm*); the model's answers do not depend on it
 	real  env.ExternalLookup
+	// unusable: names the real lookup answers with a nil error and a reflect.Value that cannot be handed out
+	// (kind extBadZero ...). Such an answer is not a binding: the model treats the name as not served (it is
+	// absent from vals); the map is kept for the class counters only.
+	unusable map[string]int
 }
 
 type node struct {
@@ -154,6 +158,26 @@ func mfindTable(n *node, name string) (target *node, shadow bool) {
 	return nil, shadow
 }
 
+// mpastUnusable reports whether the walk from n to the nearest binding of name (tableOnly: to the nearest
+// table entry, what set and delete-nearest act on) - or to the outermost scope if there is none - asks an
+// external lookup that answers name with an unusable value. Used for class counters only.
+func mpastUnusable(n *node, name string, tableOnly bool) bool {
+	for cur := n; cur != nil; cur = cur.parent {
+		if _, ok := cur.values[name]; ok {
+			return false
+		}
+		if cur.ext != nil {
+			if _, ok := cur.ext.vals[name]; ok && !tableOnly {
+				return false
+			}
+			if _, ok := cur.ext.unusable[name]; ok {
+				return true
+			}
+		}
+	}
+	return false
+}
+
 // mpath resolves a module path. res == nil means "error". alt reports that the
 // nearest binding of the first element was not a module while a module was found
 // further out: then "error" is admitted next to res.
@@ -240,7 +264,8 @@ var builtinTypes = map[string]reflect.Type{
 
 // ---------------------------------------------------------------- external lookups
 
-// extLookup is the harness-side map-backed env.ExternalLookup.
+// extLookup is the harness-side map-backed env.ExternalLookup. vals may hold unusable reflect.Values
+// (see extBad*): they are answered like every other entry, with a nil error.
 type extLookup struct {
 	vals  map[string]reflect.Value
 	types map[string]reflect.Type
@@ -385,10 +410,52 @@ func inForm(base *extLookup, form int) env.ExternalLookup {
 	return base
 }
 
+// Unusable answers. A host's lookup may return a nil error together with a reflect.Value that cannot be
+// handed out: the zero Value (e.g. "not found" signalled by the value alone, or a MapIndex / FieldByName
+// result passed on unchecked), or a value read from an unexported struct field (a lookup that reflects over
+// a host struct). Neither can be turned into an interface{} - Get would have to panic - so such an answer
+// is not a binding: the lookup goes on as after a miss.
+const (
+	extBadZero       = 1 // reflect.Value{}
+	extBadHidden     = 2 // value of an unexported field, not addressable
+	extBadHiddenAddr = 3 // value of an unexported field of an addressable struct (CanAddr, not CanInterface)
+)
+
+var extBadKindNames = [4]string{"", "zero-Value", "unexported-field", "addressable-unexported-field"}
+
+// extBadNames[i]: the names lookup i answers unusably when its mode (Case.ExtBad[i-1]) is not 0; disjoint
+// from the names it serves. Mode 1..3: all of them with that kind, mode 4: kinds alternate by position.
+var extBadNames = [4][]string{nil, {"b", "c", ""}, {"a", "m", "bool"}, {"a", "b", "e", "m", "a.b"}}
+
+const nExtBadModes = 5
+
+var extBadModeNames = [nExtBadModes]string{"none", "zero-Value", "unexported-field", "addressable-unexported-field", "mixed"}
+
+func normExtBad(m int) int { return ((m % nExtBadModes) + nExtBadModes) % nExtBadModes }
+
+func extBadKind(mode, pos int) int {
+	if mode == 4 {
+		return pos%3 + 1
+	}
+	return mode
+}
+
+type hostRecord struct{ hidden string }
+
+func unusableValue(kind int) reflect.Value {
+	switch kind {
+	case extBadHidden:
+		return reflect.ValueOf(hostRecord{"hidden"}).Field(0)
+	case extBadHiddenAddr:
+		return reflect.ValueOf(&hostRecord{"hidden"}).Elem().Field(0)
+	}
+	return reflect.Value{}
+}
+
 // newExts builds the three external lookups of a case (fresh objects per case).
 // They never know dotted names and never hold scopes. forms[i-1] is the Go
-// representation of lookup i (missing: pointer).
-func newExts(forms []int) [4]*mext {
+// representation of lookup i (missing: pointer), bad[i-1] its mode of unusable answers (missing: none).
+func newExts(forms, bad []int) [4]*mext {
 	mk := func(id int, vals map[string]string, addressable string, types map[string]int) *mext {
 		base := &extLookup{vals: map[string]reflect.Value{}, types: map[string]reflect.Type{}, zeroOnMiss: id%2 == 0}
 		m := &mext{id: id, vals: map[string]mval{}, types: map[string]reflect.Type{}}
@@ -406,6 +473,17 @@ func newExts(forms []int) [4]*mext {
 		for k, id := range types {
 			base.types[k] = typeOf(id)
 			m.types[k] = typeOf(id)
+		}
+		if id-1 < len(bad) {
+			if mode := normExtBad(bad[id-1]); mode != 0 {
+				m.unusable = map[string]int{}
+				for pos, k := range extBadNames[id] {
+					// the real lookup answers (value, nil); the model's vals do not get the name
+					kind := extBadKind(mode, pos)
+					base.vals[k] = unusableValue(kind)
+					m.unusable[k] = kind
+				}
+			}
 		}
 		if id-1 < len(forms) {
 			m.form = normExtForm(forms[id-1])
